@@ -688,6 +688,10 @@ def run(pm, ctx):
     run_decisions(pm, ctx, 'C06-RD', OWN['C06'])
     from .. import exprdrift
     exprdrift.run(pm, ctx, 'C06-RE', OWN['C06'])
+    from ..conddrift import run_calls
+    run_calls(pm, ctx, 'C06-RC', OWN['C06'])
+    from .. import memo
+    memo.run(pm, ctx, 'C06-MK', OWN['C06'])
     ctx.import_rules(pm, 'C08', {'C08-R2'}, 'C06-R12',
                      'the validators the decoder relies on check everything declared: bounds, item, '
                      'key and value validators (shared with C08-R2)')
